@@ -5,7 +5,7 @@ from typing import Any, List, Tuple
 import z3
 
 from .sv import *
-from .state import State
+from .state import State, Obligation
 from .ex_core import CLASS_ALIASES, BUILTIN_CLASSES, BUILTIN_EXC, BUILTIN_FUNCS
 
 
@@ -139,6 +139,15 @@ class Expr:
                 except OutOfSubset:
                     pass
                 self.no_eval_consts.add((module, name))
+            if isinstance(expr, ast.Dict) and self.shape_of('$' + name) == 'table':
+                # opt-in (shape "table"): a module-level dict literal that is only ever read; its display is evaluated
+                saved = (self.cur_module, self.spec_mode)
+                self.cur_module, self.spec_mode = module, True
+                try:
+                    r, _ = self.ev1(expr, State({}, []))
+                finally:
+                    self.cur_module, self.spec_mode = saved
+                return r
             # module-level value we do not evaluate: opaque, stable constant
             return self.mkval(self.th.const(f'glob:{module}.{name}'), self.shape_of('$' + name))
         if name in BUILTIN_EXC or name in BUILTIN_CLASSES:
@@ -596,9 +605,17 @@ class Expr:
         def k(vs, s):
             n = len(node.keys)
             m = VMapB(self.th.empty_set, self.th.dflt_map)
+            entries = {}
             for kk, vv in zip(vs[:n], vs[n:]):
                 kt = self.toVal(kk, s)
                 m = VMapB(z3.Store(m.has, kt, True), z3.Store(m.get, kt, self.toVal(vv, s)))
+                sk = self.static_key(kk)
+                if entries is not None and sk is not None:
+                    entries[sk] = vv
+                else:
+                    entries = None
+            if entries:
+                object.__setattr__(m, '_entries', entries)     # display with statically known keys: exact look-up of constant keys
             return [(m, s)]
         # keys and values interleaved in source order: k1, v1, k2, v2; evaluate keys then values pairwise
         order = []
@@ -610,6 +627,20 @@ class Expr:
             vs_ = vs[1::2]
             return k(list(ks) + list(vs_), s)
         return self.bind(self.evs(order, st), k2)
+
+    def static_key(self, sv):
+        if isinstance(sv, VBool):
+            b = z3.simplify(sv.b)
+            return ('b', True) if z3.is_true(b) else ('b', False) if z3.is_false(b) else None
+        if isinstance(sv, VInt):
+            i = z3.simplify(sv.i)
+            return ('i', i.as_long()) if z3.is_int_value(i) else None
+        if isinstance(sv, VClass):
+            return ('c', sv.name)
+        if isinstance(sv, VTuple):
+            ks = tuple(self.static_key(x) for x in sv.items)
+            return None if any(k is None for k in ks) else ('t',) + ks
+        return None
 
     def ev_JoinedStr(self, node, st):
         # f-string: an uninterpreted, deterministic string builder keyed by its literal skeleton
@@ -672,6 +703,31 @@ class Expr:
             i = self.toInt(idx, st)
             return self.outcomes(st, [(z3.And(i >= 0, i < cont.n), VVal(z3.Select(cont.arr, i))),
                                       (z3.Not(z3.And(i >= 0, i < cont.n)), ('raise', 'IndexError', origin))])
+        if isinstance(cont, VMapB) and isinstance(idx, VTuple) and not getattr(idx, '_split', False) \
+                and any(isinstance(x, VBool) and not (z3.is_true(z3.simplify(x.b)) or z3.is_false(z3.simplify(x.b))) for x in idx.items) \
+                and len(idx.items) <= 6:
+            # a tuple-of-flags key (decision tables): split the path on each symbolic flag so every look-up uses a constant key
+            import itertools
+            pos = [j for j, x in enumerate(idx.items) if isinstance(x, VBool) and not (z3.is_true(z3.simplify(x.b)) or z3.is_false(z3.simplify(x.b)))]
+            outs = []
+            for combo in itertools.product([True, False], repeat=len(pos)):
+                s2 = st.fork()
+                items = list(idx.items)
+                for j, bv in zip(pos, combo):
+                    s2.add(idx.items[j].b if bv else z3.Not(idx.items[j].b))
+                    items[j] = VBool(z3.BoolVal(bv))
+                if self.quick_infeasible(s2.pc):
+                    continue
+                k2 = VTuple(tuple(items), idx.is_list)
+                object.__setattr__(k2, '_split', True)
+                outs.extend(self.getitem(cont, k2, s2, node))
+            return outs
+        if isinstance(cont, VMapB) and getattr(cont, '_entries', None):
+            sk = self.static_key(idx)
+            if sk is not None:
+                if sk in cont._entries:
+                    return [(cont._entries[sk], st)]
+                return [self.raise_('KeyError', st, origin)]
         if isinstance(cont, VMapB):
             k = self.toVal(idx, st)
             has = z3.Select(cont.has, k)
@@ -696,11 +752,21 @@ class Expr:
                 has = z3.Select(th.m_hasA(cont.term), k)
                 ek = self.shape_of(self.src(node.value) + '[]') if node is not None else None
                 alts = [(has, self.mkval(z3.Select(th.m_getA(cont.term), k), ek)), (z3.Not(has), ('raise', 'KeyError', origin))]
+                if not self.spec_mode and self.depth == 0 and not cont.fresh and self.is_entry_param(cont) and node is not None:
+                    # m[k] on a mapping handed in by the caller: a Mapping with __missing__ (defaultdict) INSERTS on a miss, so the
+                    # read is only side-effect free where the key is known to be present
+                    self.emit(Obligation(self.cur_func_key, 'frame', f'{self.next_label()}', self.frame_props, list(st.pc), has,
+                                         origin=f'subscript {self.src(node)} of a caller-owned mapping at a key not known to be present '
+                                                f'(a mapping with __missing__, e.g. defaultdict, is modified by the look-up)', path_kind='mutation'))
                 return self.with_hash(k, idx, st, origin, alts)
             if kind in ('typeobj', 'cls', 'callable') or str(cont.term).startswith('c!typing_'):
                 t = th.fn('subscript_type', th.Val, th.Val, th.Val)(cont.term, self.toVal(idx, st))
                 return [(VVal(t), st)]
         raise OutOfSubset(f'subscript on {type(cont).__name__} (kind {getattr(cont, "kind", None)}): add a shape hint', node)
+
+    def is_entry_param(self, v) -> bool:
+        ee = getattr(self, 'entry_env', None) or {}
+        return any(isinstance(p, VVal) and not k.startswith('$') and k not in ('self', 'cls') and p.term.eq(v.term) for k, p in ee.items())
 
     def seq_index(self, t, i, n, st, origin, elem_kind=None):
         th = self.th
